@@ -145,6 +145,42 @@ def chain_programs(check, wp, family, seed, layouts, vers, maxchoices, fams=("bo
     return res
 
 
+def statement_pairs(check, wp, family, seed, npairs, maxchoices=6):
+    """Sequences of two statements are parsed as the two statements: every short statement of the access-chain fragment (TLC,
+    exhaustive) is rendered alone, pairs of them are rendered one after the other, and the pair's tree must consist of the two
+    single trees (structure and values; no node shared).  A parser action that leaves something behind on the value stack
+    for a later, unrelated production shows here.  Returns list of (A, B, ver, what, detail)."""
+    import random as _r
+    rng = _r.Random(seed * 977 + (5 if family == "5" else 7))
+    table, _ = syntax.generate(check, family, num=1, seed=seed, depth=1)
+    fams = ("both", "7", "7g") if family == "7" else ("both", "5")
+    table, behs = syntax.generate(check, family, rootcat="stmt", rootmax=1, depth=4, allowed=chain_set(table, fams), exhaustive=True,
+                                  maxchoices=maxchoices, timeout=2400)
+    ex = expand_all(table, behs, seed, ["none"])
+    singles = sorted({e["variants"][0]["src"][len("<?php "):] for e in ex if not e.get("skip") and "?>" not in e["variants"][0]["src"]})
+    ver = VERS[family][0]
+    sres = wp.run([{"op": "stmt_fps", "src": "<?php " + s, "ver": ver, "path": ["Stmts"]} for s in singles])
+    fp = {s: r["fps"][0][1] for s, r in zip(singles, sres)
+          if not (r.get("panic") or r.get("hang") or r.get("crash")) and r.get("nerr", 1) == 0 and r.get("path_ok") and len(r.get("fps") or []) == 1}
+    good = sorted(fp)
+    pairs = [(rng.choice(good), rng.choice(good)) for _ in range(npairs)]
+    pres = wp.run([{"op": "stmt_fps", "src": "<?php " + a + "\n" + b, "ver": ver, "path": ["Stmts"]} for a, b in pairs])
+    bad = []
+    for (a, b), r in zip(pairs, pres):
+        check.count()
+        if r.get("panic") or r.get("hang") or r.get("crash"):
+            continue
+        if r.get("nerr", 1) > 0 or not r.get("path_ok"):
+            bad.append((a, b, ver, "sequence-of-valid-statements-rejected", r.get("nerr")))
+        elif [x[1] for x in r["fps"]] != [fp[a], fp[b]]:
+            bad.append((a, b, ver, "sequence-not-the-two-statements", [x[2] for x in r["fps"]]))
+        elif r.get("shared"):
+            bad.append((a, b, ver, "shared-node", r["shared"]))
+    check.cov["statement_pairs_%s" % family] = len(pairs)
+    check.cov["single_statements_%s" % family] = len(good)
+    return bad
+
+
 NOT_SCALABLE = {"heredoc/empty", "nowdoc/empty", "stmt+halt"}     # D6 (known finding) / must be last
 
 
